@@ -74,7 +74,7 @@ def consistency(net, N, A_expected, directed):
     return out
 
 
-def ob_threshold(name, N, symmetric, directed, non_local, seq):
+def ob_threshold(name, N, symmetric, directed, non_local, seq, toggle=False):
     from pyunicorn.climate import ClimateNetwork
     funcs = ["src/pyunicorn/climate/climate_network.py ClimateNetwork.__init__/set_threshold/set_non_local/_calculate_threshold_adjacency/"
              "_calculate_non_local_adjacency/threshold", "src/pyunicorn/core/network.py Network.__init__/adjacency.setter"]
@@ -87,12 +87,15 @@ def ob_threshold(name, N, symmetric, directed, non_local, seq):
         with pe.patched(mods(), patches()):
             grid = make_grid(N)
             net = ClimateNetwork(grid, SymNd(S.copy()), threshold=thetas[0], non_local=non_local, directed=directed, silence_level=3)
-            if non_local:
+            if non_local or toggle:
                 # damping weights as the library computes them (uninterpreted tanh): read back from a direct evaluation
                 W = 0.5 * (pe.NP.tanh(20 * (grid.angular_distance() - 0.05)) + 1)
                 for i in range(N):
                     for j in range(N):
                         damp[(i, j)] = pe._num(W[i, j])
+
+            def damp_of(i, j):
+                return damp[(i, j)]
             for k in range(seq):
                 if k > 0:
                     net.set_threshold(thetas[k])
@@ -110,9 +113,22 @@ def ob_threshold(name, N, symmetric, directed, non_local, seq):
                     for i in range(N):
                         for j in range(i):
                             out.append((f"step{k}:symmetric", ne(pe._num(A[i, j]), pe._num(A[j, i]))))
-            if seq == 2:
-                # raising the threshold only removes links
-                out.append(("monotone", False))
+            if toggle:
+                # switch the distance weighting off again: plain thresholding of the ORIGINAL similarities
+                net.set_non_local(not non_local)
+                exp = {}
+                for i in range(N):
+                    for j in range(N):
+                        s_ = absv(S[i, j])
+                        if not non_local:
+                            s_ = mul(s_, damp_of(i, j))
+                        exp[(i, j)] = False if i == j else gt(s_, thetas[-1].v)
+                out += [(f"toggle:{l}", b) for l, b in consistency(net, N, exp, directed)]
+            # the stored similarity measure is still |S|
+            SM = np.asarray(net.similarity_measure(), dtype=object)
+            for i in range(N):
+                for j in range(N):
+                    out.append(("similarity_measure-unchanged", ne(pe._num(SM[i, j]), absv(S[i, j]))))
         return [(l, b) for l, b in out if b is not False]
 
     def wit(m, lab):
@@ -176,6 +192,10 @@ def obligations(tier):
                                            directed=directed, non_local=False, seq=1), 1500))
     obs.append((ob_threshold, dict(name="C09|set_threshold sequence|N=3", N=3, symmetric=True, directed=False, non_local=False, seq=2), 1500))
     obs.append((ob_threshold, dict(name="C09|threshold|non_local|N=2", N=2, symmetric=True, directed=False, non_local=True, seq=1), 1500))
+    obs.append((ob_threshold, dict(name="C09|non_local: set_threshold twice, then set_non_local(False)|N=2", N=2, symmetric=True, directed=False,
+                                   non_local=True, seq=2, toggle=True), 1500))
+    obs.append((ob_threshold, dict(name="C09|set_threshold, then set_non_local(True)|N=2", N=2, symmetric=True, directed=False,
+                                   non_local=False, seq=1, toggle=True), 1500))
     obs.append((ob_density, dict(name="C09|link density|N=2|unit diagonal", N=2, diag=1, via_setter=False), 2400))
     obs.append((ob_density, dict(name="C09|link density|N=3|unit diagonal", N=3, diag=1, via_setter=False), 3000))
     obs.append((ob_density, dict(name="C09|set_link_density|N=3|unit diagonal", N=3, diag=1, via_setter=True), 3000))
@@ -208,6 +228,20 @@ def replay(w):
             nl = ref.sum() if w["directed"] else ref.sum() / 2
             if net.n_links != nl or abs(net.link_density - ref.sum() / (N * (N - 1))) > 1e-12 or net.threshold() != t:
                 probs.append(f"step {k}: n_links={net.n_links} link_density={net.link_density} threshold()={net.threshold()} expected {nl}, {ref.sum() / (N * (N - 1))}, {t}")
+        if "toggle" in w.get("label", "") or "similarity_measure" in w.get("label", ""):
+            nl = w["non_local"]
+            if "toggle" in w.get("label", ""):
+                net.set_non_local(not nl)
+                nl = not nl
+                sim = np.abs(S.astype("float32"))
+                if nl:
+                    sim = sim * (0.5 * (np.tanh(20 * (grid.angular_distance() - 0.05)) + 1))
+                ref = (sim > th[-1]).astype(int)
+                np.fill_diagonal(ref, 0)
+                if (net.adjacency != ref).any():
+                    probs.append(f"after set_non_local({nl}): adjacency {net.adjacency.tolist()} expected {ref.tolist()}")
+            if not np.allclose(net.similarity_measure(), np.abs(S.astype("float32"))):
+                probs.append(f"similarity_measure() changed to {net.similarity_measure().tolist()}")
         return bool(probs), f"S={S.tolist()} thresholds={th}: " + "; ".join(probs[:2])
     rho = float(f(w["rho"]))
     if w["via_setter"]:
